@@ -257,7 +257,7 @@ def run_property(prop, tier, seed):
                 if cl is not None:
                     props = info["clause_props"].get(f["label"], info["props"])
                 elif ltoks:      # a named assertion carries its properties in its label
-                    props = set(ltoks)
+                    props = set(ltoks) | set(getattr(info.get("obj"), "also", ()) or ())
                 else:   # a failed safety condition / invariant leaves every clause of the function unproved
                     props = set().union(*[set(ps) for ps in info["clause_props"].values()]) or set(info["props"])
                     if uname in cfg.get("safety_units", []):
